@@ -241,7 +241,7 @@ def check_bn(model, R):
             R.ob('C13.BN-UPDATE', kern.qualname, 'guard of %s update: %s' % (k, sorted(fs)), ('training', True) in fs and ('%s is not None' % k, True) in fs, 'running statistics may only be written in training mode when the buffer exists', kern.loc)
     # variance used for normalising is the biased one
     vb = [n for n in body_walk(kern.node) if isinstance(n, ast.Assign) and norm(n.targets[0]) == 'var']
-    ok = len(vb) == 1 and isinstance(vb[0].value, ast.IfExp) and 'ddof' not in norm(vb[0].value) and norm(vb[0].value.orelse).startswith('x.var(')
+    ok = len(vb) == 1 and isinstance(vb[0].value, ast.IfExp) and 'ddof' not in norm(vb[0].value) and norm(vb[0].value.orelse).replace(' ', '').startswith(('x.var(', 'np.var(x,'))
     R.ob('C13.BN-UPDATE', kern.qualname, norm(vb[0]) if vb else 'no var', ok, 'normalisation uses the biased batch variance (no ddof); only the running update is unbiased', kern.loc)
     # wrapper write-back: both, once, from the kernel results
     wcfg = CFG(wrapper.node)
